@@ -73,6 +73,8 @@ def build():
         o = Opaque("tlocal", "_backend")
         if ctx.choose(2, "tlocal-has-config") == 1:
             o.attrs["config"] = fresh_config(interp, "cur")
+        else:
+            o.attrs["hasattr"] = {"config": False}
         ctx.ghost["TL"] = o
         return o
 
@@ -225,16 +227,22 @@ def build():
         o = SObj(cls, {})
         o.fields.update(nesting_level=level if level is not None else INT.fresh(interp.ctx, "level"),
                         inner_max_num_threads=None, backend_kwargs=PyDict({}))
+        o.fields["__complete__"] = True  # an instance of a built-in backend class: exactly the attributes ParallelBackendBase.__init__ assigns
         return o
 
     def ext_backend(interp):
         # a third-party backend: attributes uses_threads / supports_sharedmem may be missing
         ctx = interp.ctx
         o = Opaque("extbackend", ctx.fresh_name("ext"), nesting_level=INT.fresh(ctx, "xlevel"))
+        o.attrs["hasattr"] = {}
         if ctx.choose(2, "ext-has-uses_threads") == 1:
             o.attrs["uses_threads"] = OneOf(False, True).fresh(ctx, "uses_threads")
+        else:
+            o.attrs["hasattr"]["uses_threads"] = False
         if ctx.choose(2, "ext-has-sharedmem") == 1:
             o.attrs["supports_sharedmem"] = OneOf(False, True).fresh(ctx, "sharedmem")
+        else:
+            o.attrs["hasattr"]["supports_sharedmem"] = False
         o.attrs["isinstance"] = ("ParallelBackendBase",)
         o.attrs["supports_return_generator"] = True
         o.attrs["default_n_jobs"] = 1
@@ -265,6 +273,8 @@ def build():
             d["require"] = REQUIRE("require").fresh(ctx, "ctx_require")
             d["n_jobs"] = OneOf(SENT_B["n_jobs"], INT).fresh(ctx, "ctx_n_jobs") if ctx.ghost.get("WITH_N_JOBS") else SENT_B["n_jobs"]
             o.attrs["config"] = PyDict(d)
+        else:
+            o.attrs["hasattr"] = {"config": False}
         ctx.ghost["TL"] = o
         ctx.ghost["TL0"] = Opaque("tlocal", "_backend0", **({"config": o.attrs["config"].clone()} if "config" in o.attrs else {}))
         return o
@@ -380,6 +390,8 @@ def build():
             d["prefer"] = OneOf(SENT_B["prefer"], "threads", "processes").fresh(ctx, "ctx_prefer")
             d["require"] = OneOf(SENT_B["require"], "sharedmem").fresh(ctx, "ctx_require")
             o.attrs["config"] = PyDict(d)
+        else:
+            o.attrs["hasattr"] = {"config": False}
         ctx.ghost["TL"] = o
         ctx.ghost["TL0"] = Opaque("tlocal", "_backend0", **({"config": o.attrs["config"].clone()} if "config" in o.attrs else {}))
         return o
@@ -393,6 +405,8 @@ def build():
                 for k in keys:
                     d[k] = OneOf(SENT_B[k], INT if k in ("n_jobs", "verbose", "max_nbytes") else STR).fresh(ctx, "ctx_" + k)
                 o.attrs["config"] = PyDict(d)
+            else:
+                o.attrs["hasattr"] = {"config": False}
             ctx.ghost["TL"] = o
             ctx.ghost["TL0"] = Opaque("tlocal", "_backend0", **({"config": o.attrs["config"].clone()} if "config" in o.attrs else {}))
             return o
